@@ -264,7 +264,7 @@ fn run_extra<T: Fl>(c: &XCase, lx: &mut Local) {
     let tiny = if T::NAME == "f32" { 1e-10 } else { 1e-20 };
     let tiny2 = if T::NAME == "f32" { 1e-30 } else { 1e-300 };
     match c.kind {
-        0 | 1 | 2 => {
+        0 | 1 | 2 | 4 => {
             let p: Vec<T> = (0..n)
                 .map(|i| {
                     T::of(match c.kind {
@@ -279,6 +279,8 @@ fn run_extra<T: Fl>(c: &XCase, lx: &mut Local) {
                     T::of(match c.kind {
                         0 => ((i * 5 + 1) % 13) as f64 / 16.0 + 0.03125,
                         1 => if i % 4 == 1 { tiny } else { 0.5 },
+                        // q within 0.03 % of p (never equal)
+                        4 => (1.0 / 8.0 + (i % 5) as f64 / 32.0) * (1.0 + 3e-4 * if i % 2 == 0 { 1.0 } else { -0.7 }),
                         // a zero of q opposite a positive p at the FIRST position (and nowhere else)
                         _ => if i == 0 { 0.0 } else { 0.25 + (i % 3) as f64 / 8.0 },
                     })
@@ -383,10 +385,10 @@ fn main() {
         },
     );
     let smax = rep.cfg.pick(1100, 4100);
-    let xcases = nsmc::patterns::sizes(40, smax).into_iter().filter(|&n| n >= 1).flat_map(|n| (0..4u8).flat_map(move |kind| (0..2u8).map(move |ty| XCase { n, kind, ty }))).filter(|c| c.kind < 3 || c.n <= 64);
+    let xcases = nsmc::patterns::sizes(40, smax).into_iter().filter(|&n| n >= 1).flat_map(|n| (0..5u8).flat_map(move |kind| (0..2u8).map(move |ty| XCase { n, kind, ty }))).filter(|c| c.kind != 3 || c.n <= 64);
     rep.run_sub(
         "size-sweep-tiny-values-aliasing",
-        &format!("every length 1..=40 and block threshold neighbourhoods up to {} x {{ordinary values with zeros; tiny positive entries 1e-20 / 1e-300 (f32: 1e-10 / 1e-30); a zero of q opposite a positive p at the first position only; p and q as views into ONE buffer (same start, different stride; a matrix against its transpose)}} x f64/f32", smax),
+        &format!("every length 1..=40 and block threshold neighbourhoods up to {} x {{ordinary values with zeros; tiny positive entries 1e-20 / 1e-300 (f32: 1e-10 / 1e-30); a zero of q opposite a positive p at the first position only; q within 0.03 % of p; p and q as views into ONE buffer (same start, different stride; a matrix against its transpose)}} x f64/f32", smax),
         xcases,
         |c, lx| {
             lx.nontrivial(c.n >= 2);
